@@ -6,6 +6,7 @@ WT=$(mktemp -d /tmp/mutwt-XXXXXX); rmdir "$WT"
 git -C /repo worktree add -q --detach "$WT" HEAD || exit 2
 git -C "$WT" apply "$P" || { echo "patch does not apply"; git -C /repo worktree remove --force "$WT"; exit 2; }
 cd /verif || exit 2
+export VERIF_EVIDENCE_DIR=$(mktemp -d /tmp/mut-evidence-XXXXXX)
 for ID in "$@"; do
   OUT=$(VERIF_REPO="$WT" ./check "$ID" --tier quick 2>&1); RC=$?
   echo "== $ID rc=$RC"; echo "$OUT" | grep -E "^VIOLATION|held on|MACHINERY|violating" | cut -c1-300 | head -4
